@@ -110,7 +110,9 @@ func intsString(p []int) string {
 }
 
 // Kind registry: every case kind lives in its own file and registers itself from init():
-//   registerKind("subject", genSubjectCases, runSubjectCase)
+//
+//	registerKind("subject", genSubjectCases, runSubjectCase)
+//
 // `gen` produces the cases of a tier (the command-line kind name may differ from the `kind=`
 // field, e.g. command "ops" generates kind=op cases); `run` executes one case on the real library.
 type genFn func(tier string, seed int64, only string) []*Case
